@@ -135,6 +135,7 @@ type FnGen struct {
 	ranges    map[*ssa.Range]*rangeState
 	covers    []coverPoint
 	curBlock  *ssa.BasicBlock
+	constGlobals map[string]bool
 }
 
 var bigOne = big.NewInt(1)
@@ -641,8 +642,41 @@ func (g *FnGen) newEpoch() int {
 	return g.nEpoch
 }
 
+// isConstGlobal: fam is a package-level variable declared `constglobal` in a contract file.
+func (g *FnGen) isConstGlobal(fam string) bool {
+	if !strings.HasPrefix(fam, "Glob_") {
+		return false
+	}
+	if g.constGlobals == nil {
+		g.constGlobals = map[string]bool{}
+		for _, pc := range g.prog.sortedContracts() {
+			tp := g.prog.typesPkg(pc.PkgPath)
+			if tp == nil {
+				continue
+			}
+			for _, n := range pc.ConstGlobals {
+				if strings.Contains(n, ".") {
+					g.constGlobals["Glob_"+sanitize(n)] = true // pkgname.Var of another package
+				} else {
+					g.constGlobals["Glob_"+sanitize(tp.Name()+"."+n)] = true
+				}
+			}
+		}
+	}
+	return g.constGlobals[fam]
+}
+
 func (g *FnGen) heapGet(st *State, fam, sort string) string {
 	g.famInit(fam, sort)
+	if g.isConstGlobal(fam) {
+		n := fam + "@const"
+		if !g.declared[n] {
+			g.declared[n] = true
+			g.decls = append(g.decls, fmt.Sprintf("(declare-const %s %s)", n, g.famSort[fam]))
+			g.note("constglobal " + strings.TrimPrefix(fam, "Glob_") + ": assumed never reassigned after package initialisation")
+		}
+		return n
+	}
 	if t, ok := st.h[fam]; ok {
 		return t
 	}
